@@ -66,7 +66,25 @@ pub fn run_case(ctx: &Ctx, rep: &mut Report, judge: Judge, case: &Case) {
     let hcase = hash_str(&case.desc());
     let max_write = if hcase % 4 == 0 { [1usize, 7, 64, 500][(hcase / 4 % 4) as usize] } else { 0 };
     rep.count("sink", if max_write == 0 { "cursor".to_string() } else { format!("short-writes<={max_write}") });
-    let obs = mon::observe(|| if max_write == 0 { encode(cfg, case.front, &pcm) } else { encode_short_writes(cfg, case.front, &pcm, max_write) });
+    // a fifth of the cases hand the audio over in several calls of odd sizes (in the front-end's
+    // own unit: samples, bytes - so also ending in the middle of a sample - or PCM frames)
+    let splits: Vec<usize> = if hcase % 5 == 2 {
+        let mut r = Rng::new(hcase);
+        (0..r.usize(1, 12)).map(|_| *r.pick(&[1usize, 2, 3, 5, 7, 13, 257, 1000, 4097, 8191])).collect()
+    } else {
+        vec![]
+    };
+    rep.count("write_calls", if splits.is_empty() { "one".to_string() } else { "several-odd-sized".to_string() });
+    let obs = mon::observe(|| {
+        if !splits.is_empty() {
+            let mut c = std::io::Cursor::new(Vec::new());
+            encode_into(&mut c, cfg, case.front, &pcm, &splits).map(|()| c.into_inner())
+        } else if max_write == 0 {
+            encode(cfg, case.front, &pcm)
+        } else {
+            encode_short_writes(cfg, case.front, &pcm, max_write)
+        }
+    });
     rep.observe_cost(obs.cpu_us, obs.peak_alloc);
     let bytes = match obs.result {
         Err(p) => {
